@@ -124,7 +124,7 @@ func (x *xrun) call(family, entry, note string, input []byte, bound uint64, f fu
 
 const (
 	boundSmall  = 24 << 20 // inputs of a few KiB never need more
-	boundGraph  = 3 << 20  // below the 4 MiB manifest cap: content declared above a cap must be refused unread
+	boundGraph  = 5 << 20  // content declared above a cap (6 MiB manifests, 40 MiB blobs) must be refused unread
 	boundLayout = 16 << 20 // oras-go's own loading of a layout reads manifests up to their declared size
 )
 
@@ -526,7 +526,7 @@ func explore(a *Args, r *Rng, w *CaseWriter, firstID int64) error {
 	w.Set("exploration_cli_plugin_answers_inspected_by_verifier", x.pluginReached)
 	w.Set("exploration_max_allocation_bytes_in_one_call", x.maxAlloc)
 	w.Set("exploration_max_allocation_bytes_by_family", x.famAlloc)
-	w.Set("exploration_guards", fmt.Sprintf("recover around every call; deadline %v per call; allocation bound %d MiB per call (3 MiB for scripted registry content, 16 MiB for on-disk layouts: content declared just above the 4 MiB / 32 MiB caps must be refused unread); soft memory limit 3 GiB", x.deadline, boundSmall>>20))
+	w.Set("exploration_guards", fmt.Sprintf("recover around every call; deadline %v per call; allocation bound %d MiB per call (5 MiB for scripted registry content, 16 MiB for on-disk layouts: manifests declared at 6 MiB and blobs declared at 40 MiB, above the 4 MiB / 32 MiB caps, must be refused unread); soft memory limit 3 GiB", x.deadline, boundSmall>>20))
 	return nil
 }
 
@@ -870,9 +870,15 @@ func hostileSize(r *Rng, real int, manifest bool) int64 {
 		return int64(real) - 1
 	}
 	if manifest {
-		return 4<<20 + 1 + int64(r.Intn(1<<16)) // just above the 4 MiB manifest cap
+		if r.Chance(1, 4) {
+			return 4<<20 + 1 // the first size above the 4 MiB manifest cap
+		}
+		return 6<<20 + int64(r.Intn(1<<16)) // above the manifest cap, allocatable
 	}
-	return 32<<20 + 1 + int64(r.Intn(1<<16)) // just above the 32 MiB blob cap
+	if r.Chance(1, 4) {
+		return 32<<20 + 1 // the first size above the 32 MiB blob cap
+	}
+	return 40<<20 + int64(r.Intn(1<<16)) // above the blob cap, allocatable
 }
 
 func exploreGraph(x *xrun, r *Rng, e *env, ctx context.Context, n int) {
